@@ -466,3 +466,18 @@ Definition run_resp (k : case_resp) : option (resp_action * list var) :=
   let m := fold_resp l in
   if resp_eqb m oa && vars_eqb (encode_resp m) ov then None
   else Some (m, encode_resp m).
+
+(* legacy (policies) mode: runner.DispatchOnRequest / DispatchOnResponse, i.e.
+   the fold of runner.runOnRequest / runOnResponse over the actions the remedy
+   plugins returned (the harness obtains those actions from the plugins
+   themselves); only the variables are observable there. *)
+Definition case_legacy_req := (list req_action * list var)%type.
+Definition case_legacy_resp := (list resp_action * list var)%type.
+
+Definition run_legacy_req (k : case_legacy_req) : option (list var) :=
+  let '(l, ov) := k in
+  if vars_eqb (spoe_req l) ov then None else Some (spoe_req l).
+
+Definition run_legacy_resp (k : case_legacy_resp) : option (list var) :=
+  let '(l, ov) := k in
+  if vars_eqb (spoe_resp l) ov then None else Some (spoe_resp l).
